@@ -1,7 +1,8 @@
 (* CdcnProofs.v — source-level theorems about ParseSource = parse (lex source): totality,
    located diagnostics, exact literals, dependence on the token sequence only.
    Combines LexerProofs (the scanner model) and ParserProofs (the parser model). *)
-From Verif Require Import Base Params Value Coll Lexer Literals Parser LexerProofs ParserProofs.
+From Coq Require Import String.
+From Verif Require Import Base Params Value Coll Lexer Literals Parser LexerProofs ParserProofs LexBridge.
 Close Scope string_scope.
 Close Scope Z_scope.
 
@@ -128,4 +129,16 @@ Lemma parse_intrinsic_rejects fparse t r :
 Proof.
   intros L V. destruct t as [ty v line pos]. simpl in *.
   destruct ty; try discriminate; unfold parse_intrinsic; simpl; rewrite V; reflexivity.
+Qed.
+
+(* the fixed words and the one-rune tokens, character level *)
+Lemma first_words rest :
+  try_types scan_order_t (zs "true" ++ rest) = Some (TBoolean, 4) /\
+  try_types scan_order_t (zs "false" ++ rest) = Some (TBoolean, 5) /\
+  try_types scan_order_t (zs "nil" ++ rest) = Some (TNil, 3) /\
+  try_types scan_order_t (10%Z :: rest) = Some (TEOL, 1) /\
+  try_types scan_order_t (32%Z :: rest) = Some (TSpace, S (span is_space rest)).
+Proof.
+  split; [apply first_true|]. split; [apply first_false|]. split; [apply first_nil|].
+  split; [apply first_eol|apply first_space].
 Qed.
